@@ -14,6 +14,10 @@ pub struct ProjCase {
     pub docs: Vec<DocCase>,
     pub ids: Vec<String>,
     pub keys: Keys,
+    /// text actually given to the parser for file i when it differs from docs[i]: the
+    /// document with one malformed member injected at the end of its body. Such a file still
+    /// has a tree (C14) and stays registered under its key; only its own result is not compared.
+    pub damaged: Vec<Option<String>>,
 }
 
 impl ProjCase {
@@ -24,16 +28,43 @@ impl ProjCase {
         }
         let ids = (0..docs.len()).map(|i| format!("f{i}")).collect();
         let keys = refval::keys_of(docs.iter().map(|d| &d.expected));
+        let damaged = vec![None; docs.len()];
         Ok(ProjCase {
             project,
             docs,
             ids,
             keys,
+            damaged,
         })
     }
 
+    /// Inject a malformed member (ending at its normal terminator) before the closing brace
+    /// of file i's item.
+    pub fn damage(&mut self, i: usize) {
+        let d = &self.docs[i];
+        let close = d.laid.spans[d.rendered.body_close].0;
+        let garbage = match &d.model.item {
+            crate::model::ItemM::Interface(_) => " void zz ( ) = 99999999999 ; ",
+            crate::model::ItemM::Parcelable(_) => " int ; ",
+            crate::model::ItemM::Enum(e) => {
+                if e.elements.is_empty() || e.trailing_comma {
+                    " 1 , "
+                } else {
+                    " , 1 , "
+                }
+            }
+        };
+        let mut t = d.laid.text.clone();
+        t.insert_str(close, garbage);
+        self.damaged[i] = Some(t);
+    }
+
     pub fn files(&self) -> Vec<(String, String)> {
-        self.ids.iter().cloned().zip(self.docs.iter().map(|d| d.laid.text.clone())).collect()
+        self.ids
+            .iter()
+            .cloned()
+            .zip(self.docs.iter().zip(self.damaged.iter()).map(|(d, g)| g.clone().unwrap_or_else(|| d.laid.text.clone())))
+            .collect()
     }
 
     pub fn run(&self) -> Result<imp::Outcome, String> {
@@ -52,7 +83,13 @@ impl ProjCase {
 
 pub fn gen_proj(s: &mut Src, pc: &ProjectCfg, lc: &LayoutCfg) -> Result<ProjCase, Fail> {
     let p = gen::project(s, pc);
-    ProjCase::from_project(p, s, lc)
+    let mut c = ProjCase::from_project(p, s, lc)?;
+    // now and then one file carries a recovered syntax error: it keeps its tree and its key
+    if c.docs.len() >= 2 && s.chance(1, 5) {
+        let i = s.below(c.docs.len());
+        c.damage(i);
+    }
+    Ok(c)
 }
 
 /// simple layout configuration for checks that are not about layout
